@@ -178,7 +178,24 @@ func runC05(s *kernel.Sim) {
 			mutations = append(mutations, fmt.Sprintf("flow-reference:%v:resp=%v", c, inResp))
 		}
 	}
-	yaml := f.def("a.com/c").YAML()
+	fd := f.def("a.com/c")
+	// the flow's own filter may carry method, header, query and status constraints
+	// (the status constraint is consulted on the response side, also on the response
+	// path that follows an early response)
+	if tp.Chance(1, 3) {
+		switch tp.Choose(4) {
+		case 0:
+			fd.Status = [][]int{{200}, {500, 503}, {429}}[tp.Choose(3)]
+		case 1:
+			fd.Methods = [][]string{{"GET"}, {"POST"}}[tp.Choose(2)]
+		case 2:
+			fd.Headers = [][2]string{{"x-h", "v1"}}
+		case 3:
+			fd.Query = [][2]string{{"x", []string{"1", "*"}[tp.Choose(2)]}}
+		}
+		mutations = append(mutations, fmt.Sprintf("filter:status=%v,methods=%v,headers=%v,query=%v", fd.Status, fd.Methods, fd.Headers, fd.Query))
+	}
+	yaml := fd.YAML()
 	// textual mutations of the YAML
 	textual := []int{8, 1, 1, 1, 1}
 	if plausible {
